@@ -101,12 +101,17 @@ class Parser:
         context._titles = excel.get_titles()
         context._sheets_size = excel.get_sheets_size()
 
-        if self._entrypoint_cell:
-            # translate a copy: resolving the identifiers binds a cell to the titles of one workbook,
-            # and the caller's cell must stay usable after the file path has been changed
-            CellTranslator.translate(replace(self._entrypoint_cell), excel, context)
-        else:
-            CellTranslator.translate_file(excel, context)
+        try:
+            if self._entrypoint_cell:
+                # translate a copy: resolving the identifiers binds a cell to the titles of one workbook,
+                # and the caller's cell must stay usable after the file path has been changed
+                CellTranslator.translate(replace(self._entrypoint_cell), excel, context)
+            else:
+                CellTranslator.translate_file(excel, context)
+        except RecursionError:
+            # the translators follow references and brackets recursively
+            raise E2PyclParserException('The formulas are nested too deeply (a chain of references or brackets '
+                                        'is longer than the interpreter stack allows)')
 
         self._translation = context.build_class()
 
